@@ -15,7 +15,8 @@ RULE = ("Engine S histories on FleetStore and the Fleet edge: capacity 1-5, wait
         "when p == w), never earlier (premature / rides an earlier trip), never later (left behind / waits too long); "
         "items of one batch appear in loading order and are handed to successive retrievals in that order (binding model of C06 with "
         "batch members ranked by loading order; a cancelled granted retrieval releases its item ahead of the never-reserved ones); the fleet "
-        "never spins in zero time (the waiting delay is > 0 in every case), which would keep loaded items from ever arriving. "
+        "never spins in zero time (the waiting delay is > 0 in every case), which would keep loaded items from ever arriving; a delivered, "
+        "unreserved item never coexists with a waiting retrieval at the end of an instant. "
         "Non-trivial: >=2 departures with items, and a load during a trip or "
         "in a departure instant.")
 ASSUMPTIONS = ["timer phase of the dispatcher (restart at every wake-up) is taken from the implementation; everything else from the statement",
@@ -141,6 +142,16 @@ class FleetOracle(Oracle):
             return
         self.observe(h, "eoi")
         now = h.env.now
+        # "available to the destination": an arrived item that nobody has reserved is handed to a destination that is waiting
+        pend = h.pending("g")
+        if pend:
+            free = len(h.subj.ready()) - len(h.granted("g"))
+            if free > 0:
+                self.res.violate(("too_long", "waiting_destination"),
+                                 "%d delivered item(s) are available and unreserved at the end of instant %s while %d retrieval request(s) of the "
+                                 "destination are still waiting" % (free, now, len(pend)))
+                self.dead = True
+                return
         for i, (p, item, seq) in self.load.items():
             if i in self.avail:
                 continue
